@@ -298,6 +298,40 @@ func genShape(repo string) (*leanFile, error) {
 				return true
 			})
 		}
+		madeByHelper := func(e ast.Expr) bool {
+			// `<-helper(…)` where the helper makes the channel it returns
+			u, ok := e.(*ast.UnaryExpr)
+			if !ok || u.Op != token.ARROW {
+				return false
+			}
+			ce, ok := u.X.(*ast.CallExpr)
+			if !ok {
+				return false
+			}
+			var id *ast.Ident
+			switch f := ce.Fun.(type) {
+			case *ast.Ident:
+				id = f
+			case *ast.SelectorExpr:
+				id = f.Sel
+			}
+			if id == nil {
+				return false
+			}
+			callee, ok := declOf[p.info.Uses[id]]
+			if !ok {
+				return false
+			}
+			made := false
+			ast.Inspect(callee.Body, func(m ast.Node) bool {
+				if c, ok := m.(*ast.CallExpr); ok && exprStr(c.Fun) == "make" && len(c.Args) > 0 && strings.HasPrefix(exprStr(c.Args[0]), "chan ") {
+					made = true
+				}
+				return true
+			})
+			return made
+		}
+		_ = madeByHelper
 		canon := func(e string) string {
 			// `<-name` or `<-name.Done()` with a local name
 			rest := strings.TrimPrefix(e, "<-")
@@ -318,11 +352,15 @@ func genShape(repo string) (*leanFile, error) {
 					continue
 				}
 				var rhs string
+				var rhsExpr ast.Expr
 				switch s := cc.Comm.(type) {
 				case *ast.ExprStmt:
-					rhs = exprStr(s.X)
+					rhs, rhsExpr = exprStr(s.X), s.X
 				case *ast.AssignStmt:
-					rhs = exprStr(s.Rhs[0])
+					rhs, rhsExpr = exprStr(s.Rhs[0]), s.Rhs[0]
+				}
+				if madeByHelper(rhsExpr) {
+					rhs = "<-ch"
 				}
 				cases = append(cases, canon(rhs))
 			}
@@ -335,8 +373,51 @@ func genShape(repo string) (*leanFile, error) {
 	// NextPackage looks at the package queue once, without blocking, before anything else can be selected: a
 	// top-level select of the function with a receive from the package queue and a default clause
 	looksFirst := false
+	// the two-clause select: a receive from the package queue that returns, and a default clause
+	isFirstLook := func(sel *ast.SelectStmt) bool {
+		hasPkg, hasDefault := false, false
+		for _, c := range sel.Body.List {
+			cc := c.(*ast.CommClause)
+			if cc.Comm == nil {
+				hasDefault = true
+				continue
+			}
+			var rhs string
+			switch x := cc.Comm.(type) {
+			case *ast.ExprStmt:
+				rhs = exprStr(x.X)
+			case *ast.AssignStmt:
+				rhs = exprStr(x.Rhs[0])
+			}
+			if rhs == "<-tdsChan.packageCh" && len(cc.Body) > 0 {
+				if _, isRet := cc.Body[len(cc.Body)-1].(*ast.ReturnStmt); isRet {
+					hasPkg = true
+				}
+			}
+		}
+		return hasPkg && hasDefault && len(sel.Body.List) == 2
+	}
 	if np != nil {
 		for _, st := range np.Body.List {
+			// … extracted into a helper: `if pkg, ok := tdsChan.helper(); ok { return pkg, nil }`
+			if ifs, ok := st.(*ast.IfStmt); ok && ifs.Init != nil && len(ifs.Body.List) > 0 {
+				if _, isRet := ifs.Body.List[len(ifs.Body.List)-1].(*ast.ReturnStmt); isRet {
+					ast.Inspect(ifs.Init, func(m ast.Node) bool {
+						ce, ok := m.(*ast.CallExpr)
+						if !ok {
+							return true
+						}
+						if sel, ok := ce.Fun.(*ast.SelectorExpr); ok {
+							if callee, ok := declOf[p.info.Uses[sel.Sel]]; ok && len(callee.Body.List) > 0 {
+								if s0, ok := callee.Body.List[0].(*ast.SelectStmt); ok && isFirstLook(s0) {
+									looksFirst = true
+								}
+							}
+						}
+						return true
+					})
+				}
+			}
 			sel, ok := st.(*ast.SelectStmt)
 			if !ok {
 				continue
